@@ -280,6 +280,7 @@ func (in *Interp) runBlocks(fr *frame, b *ssa.BasicBlock) Value {
 		var next *ssa.BasicBlock
 		for _, instr := range b.Instrs[nphi:] {
 			in.steps++
+			fr.cur = instr
 			if in.steps > int64(in.Cfg.MaxSteps) {
 				panic(&pathEnd{reason: "budget", msg: fmt.Sprintf("step budget %d exceeded in %s", in.Cfg.MaxSteps, fr.fn.String())})
 			}
